@@ -216,7 +216,7 @@ V_ASSIGNS(zck->work_index_item, WR_WORKHASHES, zck->error_state)
 V_ASSIGNS_MODEL(WR_GHOST_HU)
 V_ASSIGNS_NODES(zck->work_index_item != NULL: __CPROVER_object_whole(zck->work_index_item))
 V_FREES_CALLEE(zck->work_index_hash.ctx, zck->work_index_hash_uncomp.ctx)
-V_ENSURES(!__CPROVER_return_value || V_OLD(zck->error_state) == 0) /*@C12.index_add_to_chunk.no_success_on_a_context_in_error*/
+V_ENSURES(!__CPROVER_return_value || V_OLD(zck->error_state) <= 0) /*@C12.index_add_to_chunk.no_success_on_a_context_in_error*/
 V_ENSURES(!__CPROVER_return_value || zck->work_index_item != NULL) /*@C01.index_add_to_chunk.entry_under_construction_exists*/
 V_ENSURES(V_OLD(zck->work_index_item) == NULL || zck->work_index_item == V_OLD(zck->work_index_item)) /*@C01.index_add_to_chunk.keeps_the_entry_under_construction*/
 V_ENSURES(V_OLD(zck->work_index_item) != NULL || zck->work_index_item == NULL || __CPROVER_is_fresh(zck->work_index_item, sizeof(zckChunk)))
@@ -237,7 +237,7 @@ V_ASSIGNS(zck->work_index_item, WR_WORKHASHES, zck->index.first, zck->index.last
 V_ASSIGNS_MODEL(WR_GHOST_HU)
 V_ASSIGNS_NODES(zck->work_index_item != NULL: __CPROVER_object_whole(zck->work_index_item); zck->index.last != NULL: zck->index.last->next)
 V_FREES_CALLEE(zck->work_index_hash.ctx, zck->work_index_hash_uncomp.ctx)
-V_ENSURES(!__CPROVER_return_value || V_OLD(zck->error_state) == 0) /*@C12.index_finish_chunk.no_success_on_a_context_in_error*/
+V_ENSURES(!__CPROVER_return_value || V_OLD(zck->error_state) <= 0) /*@C12.index_finish_chunk.no_success_on_a_context_in_error*/
 V_ENSURES(!__CPROVER_return_value || (zck->work_index_item == NULL && zck->index.count == V_OLD(zck->index.count) + 1)) /*@C01.index_finish_chunk.entry_moves_to_the_index*/
 V_ENSURES(!__CPROVER_return_value || (zck->index.last != NULL && zck->index.first != NULL && (V_OLD(zck->work_index_item) != NULL ? zck->index.last == V_OLD(zck->work_index_item) : __CPROVER_is_fresh(zck->index.last, sizeof(zckChunk))))) /*@C01.index_finish_chunk.appended_as_last*/
 V_ENSURES(!__CPROVER_return_value || (LAST_NOW(zck)->length == WI_OLD_LEN(zck) && LAST_NOW(zck)->comp_length == WI_OLD_CLEN(zck) && LAST_NOW(zck)->start == V_OLD(zck->index.length) && zck->index.length == V_OLD(zck->index.length) + WI_OLD_CLEN(zck) && LAST_NOW(zck)->next == NULL)) /*@C01,C13.index_finish_chunk.entry_carries_the_accumulated_lengths*/
@@ -289,7 +289,7 @@ V_ASSIGNS(COMP_INIT_FRAME)
 V_ASSIGNS_MODEL(WR_GHOST_IO, WR_GHOST_HU)
 V_ASSIGNS_NODES(zck->index.last != NULL: zck->index.last->next)
 V_FREES_CALLEE(zck->work_index_hash.ctx, zck->work_index_hash_uncomp.ctx)
-V_ENSURES(!__CPROVER_return_value || (V_OLD(zck->error_state) == 0 && V_OLD(zck->comp.started) == 0 && zck->comp.started != 0)) /*@C12.comp_init.no_success_on_a_context_in_error*/
+V_ENSURES(!__CPROVER_return_value || (V_OLD(zck->error_state) <= 0 && V_OLD(zck->comp.started) == 0 && zck->comp.started != 0)) /*@C12.comp_init.no_success_on_a_context_in_error*/
 V_ENSURES(!__CPROVER_return_value || (zck->chunk_min_size >= 1 && zck->chunk_min_size <= zck->chunk_max_size)) /*@C01,C16.comp_init.min_le_max*/
 V_ENSURES(!__CPROVER_return_value || ((V_OLD(zck->chunk_min_size) == 0 || zck->chunk_min_size == V_OLD(zck->chunk_min_size)) && (V_OLD(zck->chunk_max_size) == 0 || zck->chunk_max_size == V_OLD(zck->chunk_max_size)))) /*@C16.comp_init.configured_sizes_kept*/
 V_ENSURES(!__CPROVER_return_value || zck->manual_chunk != 0 || (zck->buzhash_width == SPEC_BZ_WIDTH && zck->buzhash_bitmask == SPEC_BZ_MASK)) /*@C16.comp_init.window_and_mask_pinned*/
